@@ -12,6 +12,10 @@
 # its binary ignores --only (the name is only a label there). The second unsafe block of storage.rs
 # (BoundedReader: ReadBuf::assume_init) is reachable only through Storage::stream_reader, which neither the
 # repository's non-test code nor any harness binary calls: not covered by any pass.
+# UPDATE: both unsafe blocks of rs/anda_db/src/storage.rs (streaming_decompress: Vec::set_len after zstd;
+# BoundedReader: ReadBuf::assume_init) are reached by C13's section `storage_stream` (Storage::stream_writer ->
+# stream_reader / fetch_bytes), which nothing else in the repository or harness calls; the asan and memcheck
+# passes of C13 run exactly that section (plus the collection storage path under asan).
 san_passes() {
   case "$1" in
     C01) echo "asan:workloads:45 memcheck:workloads:60" ;;
@@ -21,6 +25,8 @@ san_passes() {
     C10) echo "tsan:stress,sched:120 miri:-:0" ;;
     C11) echo "tsan:stress,sched:120 miri:-:0" ;;
     C12) echo "tsan:stress:120" ;;
+    C13) echo "asan:storage,storage_stream:60 memcheck:storage_stream:150" ;;
+    C17) echo "tsan:vis:120" ;;
     *) echo "" ;;
   esac
 }
